@@ -550,6 +550,22 @@ pub fn drive_automata(a: &Args) {
         println!("{{\"family\":\"automata-escalation\",\"minimize\":{}}}", n1);
         return;
     }
+    // larger automata with a regular shape (17, 33, 65 states: sizes where block-wise code changes strategy): a
+    // cycle on the first letter, the second letter stays / resets / jumps; finals = multiples of k
+    for &n in &[16usize, 17, 33, 65] {
+        for second in 0..3 {
+            for &k in &[1usize, 2, 3, 4, n] {
+                let lay = Layout::new(1, &mut rng, false);
+                let letters: Vec<(u32, u32)> = (0..2).map(|i| (lay.lo(i), lay.hi(i))).collect();
+                let delta: Vec<Vec<usize>> = (0..n)
+                    .map(|i| vec![(i + 1) % n, match second { 0 => i, 1 => 0, _ => (i * 2) % n }])
+                    .collect();
+                let finals: Vec<bool> = (0..n).map(|i| i % k == 0).collect();
+                let d = AbsDfa { n, letters, delta, finals };
+                dfa_records(&d, (n + k) % 3, &mut rng, want_min, want_c14, &mut o1, &mut o2);
+            }
+        }
+    }
     for k in 0..a.sz(1800, 40000) {
         let d = match k % 6 {
             0 => random_abs(&mut rng, 4, 2),
